@@ -4,7 +4,7 @@
 set -e
 D=$(mktemp -d /tmp/kwmut.XXXXXX)
 mkdir -p "$D/src"
-cp -r /repo/kawin "$D/src/kawin"
+cp -r /repo/kawin "$D/src/kawin"; ln -s /repo/examples "$D/src/examples"
 if [ "$1" = "-e" ]; then
   sed -i -E "$2" "$D/src/$3"; shift 3
   (cd /repo && diff -u "$3" "$D/src/$3" | head -0) 2>/dev/null || true
